@@ -149,11 +149,11 @@ def gen_cases(cpu, r, tier):
     mode = cpu.mode
     quick = tier == "quick"
     out = []
-    per_random = 3 if quick else 60
+    per_random = 2 if quick else 60
     states = PFX_STATES_64 if mode == 64 else PFX_STATES_32
     for s in cpu.insn_specs:
         # systematic: every prefix state that changes operand / address size, on a structured ModRM
-        for p in (r.sample(states, 5) if quick else states):
+        for p in states * (1 if quick else 4):
             b = G.gen_from_spec(s, r, 32)            # mode 32: no REX added by the generator
             _, rest = split_prefixes(32, b)
             out.append(((p + rest)[:15], "spec-pfx"))
@@ -197,6 +197,15 @@ def main(tier):
     cpus = {32: G.Cpu(32), 64: G.Cpu(64)}
     ck.cov["specs"] = {"x86": len(cpus[32].insn_specs), "x64": len(cpus[64].insn_specs)}
 
+    MAXV = 40               # distinct violation signatures reported in full; further ones are counted
+    suppressed = collections.Counter()
+
+    def report(sig, *a, **k):
+        if sig not in ck.known and len(ck.violations) >= MAXV and not any(v["signature"] == sig for v in ck.violations):
+            suppressed[sig] += 1
+            return True
+        return ck.report(sig, *a, **k)
+
     model_bad = []          # model disagrees with both references  (tie 2 broken)
     corr_bad = []           # amoco disagrees with the model and no reference verdict is available (tie 1)
     unjudged = collections.Counter()
@@ -229,13 +238,13 @@ def main(tier):
             # the property
             if a[0] == "ok":
                 if a[1] != n:
-                    ck.report(signature(mode, "len", spec, b),
+                    report(signature(mode, "len", spec, b),
                               "%s %s: amoco decodes %s (%s) with length %d, objdump and llvm-mc agree on %d%s"
                               % (tag, b.hex(), a[3], a[4].strip(), a[1], n, (" [%s]" % texts[0]) if texts else ""),
                               "oracle", "correspondence amoco ~ Amoco.X86Len.x86len (validated against objdump + llvm-mc)",
                               case={"mode": mode, "bytes": b.hex(), "origin": origin}, real=list(a[1:5]), model=m, expected=[n, d])
                 elif d is not None and a[2] != d:
-                    ck.report(signature(mode, "rel", spec, b),
+                    report(signature(mode, "rel", spec, b),
                               "%s %s: amoco decodes %s with displacement %r, objdump and llvm-mc agree on %d"
                               % (tag, b.hex(), a[3], a[2], d),
                               "oracle", "correspondence amoco ~ Amoco.X86Len.x86rel (validated against objdump + llvm-mc)",
@@ -271,6 +280,11 @@ def main(tier):
         if live_refs and strs:
             od, odt = R.run_objdump(mode, strs)
             ll, llt = R.run_llvm(mode, strs)
+            if not quick:
+                lin = R.llvm_length_linear(mode, strs)
+                mism = sum(1 for x, y in zip(ll, lin) if (x is None) != (y is None) or (x is not None and x[0] != y[0]))
+                ck.cov["llvm_bisection_vs_exhaustive_mismatches_x%d" % mode] = mism
+                ll = [None if y is None else (y[0], y[1]) for y in lin]
         for k, (e, b) in enumerate(zip(ent, strs)):
             v = table_verdict(e[2], e[3])
             if live_refs:
@@ -333,7 +347,7 @@ def main(tier):
                 if a[1] != n:
                     win = blob[off: off + 15]
                     a2 = amoco_all(mode, [win])[0]
-                    ck.report(signature(mode, "len", a2[5], win),
+                    report(signature(mode, "len", a2[5], win),
                               "%s stream %s: at reference boundary %d amoco decodes %s with length %d, the references have %d: "
                               "amoco places the next boundary where the references do not"
                               % (tag, blob.hex(), off, a[3], a[1], n),
@@ -392,6 +406,9 @@ def main(tier):
     ck.oblige("both reference disassemblers available (else vendored table only)", True,
               "" if live_refs else "missing: %s" % [k for k, v in tools.items() if not v])
     ck.cov["unjudged_amoco_vs_model"] = dict(unjudged.most_common(40))
+    if suppressed:
+        ck.cov["violation_signatures_not_listed"] = len(suppressed)
+        print("(+ %d further distinct violation signatures, %d strings, not listed)" % (len(suppressed), sum(suppressed.values())))
     ck.assumptions += [
         "PARTIAL: the property is agreement with two external binaries (objdump %s, llvm-mc %s); it is decided by differential comparison on generated strings, not by a theorem"
         % (ck.cov["tools"].get("objdump", "absent"), ck.cov["tools"].get("llvm-mc", "absent")),
